@@ -1,7 +1,21 @@
 (* C13 - caller owns tree memory (statements; the model of yaep_free_tree is in TreeMem.v) *)
-From YV Require Import Prelude Translate Dag.
+From YV Require Import Prelude Translate Dag TreeMem.
 
 Theorem C13_acyclic_paths_bounded : forall st, acyclic_b st = true ->
   forall id l, id < length st -> path st id l -> length l <= length st.
 Proof. exact acyclic_b_spec. Qed.
 Print Assumptions C13_acyclic_paths_bounded.
+
+(* yaep_free_tree (free_tree_reduce followed by free_tree_sweep) on the DAG of a
+   parse: every node reachable from the root is passed to parse_free exactly
+   once and nothing else is; the terminal callback is called exactly once for
+   every reachable TERM node; every name of a reachable abstract node is passed
+   to parse_free exactly once. *)
+Theorem C13_free_tree : forall st fuel root t s',
+  reduce st fuel root {| vis := []; names := [] |} = Some (t, s') ->
+  let log := sweep t in
+  NoDup (frees log) /\ (forall n, In n (frees log) <-> reach st root n) /\
+  NoDup (termcbs log) /\ (forall n, In n (termcbs log) <-> reach st root n /\ is_term st n = true) /\
+  NoDup (namefrees log) /\ (forall nm, In nm (namefrees log) <-> exists n, reach st root n /\ name_of st n = Some nm).
+Proof. exact free_tree_correct. Qed.
+Print Assumptions C13_free_tree.
